@@ -60,8 +60,19 @@ def doc_descendants(ctx, node):
 
 
 def doc_root(ctx, el):
-    anc = doc_ancestors(ctx, el)
-    return anc[-1] if anc else el
+    """The node that stands for the element's own document: the BeautifulSoup object when the element hangs under
+    it (also when the markup produced several top-level elements), else the top element below an iframe boundary
+    or of a detached fragment."""
+    cur = el
+    while True:
+        p = cur.parent
+        if p is None:
+            return cur
+        if isinstance(p, bs4.BeautifulSoup):
+            return p
+        if R.is_iframe(ctx, p):
+            return cur
+        cur = p
 
 
 def is_form_control(ctx, el):
@@ -274,3 +285,13 @@ DEFS = {
     'read-only': read_only, 'link': link, 'any-link': link,
     'in-range': lambda c, e: range_state(c, e) == 'in', 'out-of-range': lambda c, e: range_state(c, e) == 'out',
 }
+
+
+def _ext(name):
+    def f(ctx, el, p):
+        return bool(ctx.is_html and DEFS[name](ctx, el))
+    return f
+
+
+for _n in DEFS:
+    R.EXT[_n] = _ext(_n)
